@@ -8,6 +8,21 @@ META = {"level": "proof", "trusted_base": ["assumed contract of sorted() (contai
         "assumptions": ["typing invariants of node fields (uuid is a UUID, offset/size are ints, decode_mode an enum member)"]}
 
 
+def bounded(tier, seed, known):
+    from pyvc import standin
+    s, v = standin.module_standin("C18", "oracles.misc_oracles", ["C18", seed, 20 if tier == "quick" else 200],
+                                  "independently constructed equal IRs, every single-field perturbation (47 kinds), cross-kind "
+                                  "same-uuid pairs, shuffled edge insertion orders: iff / reflexive / symmetric on the real code "
+                                  "(covers the container classes, which are not yet under contract)",
+                                  "47 perturbations + 36 cross-kind pairs + shuffles, seed %d" % seed)
+    return [s], v
+
+
+def replay_obligation(result, rep):
+    from pyvc import standin
+    return standin.module_witness("oracles.misc_oracles", ["C18", 1, 50])
+
+
 def extra_obligations(prog, schema, reg, eng):
     from contracts.deepeq import DeepEqLeaf
     eng.cur_facts = []
